@@ -64,10 +64,25 @@ pub fn csr_space(conformant_only: bool) -> Space<CsrCase> {
     Space { base: CsrCase { st: CertState { serial: None, ..crate::glue::base_cert_state() }, attrs: vec![] }, dims }
 }
 
+/// Named input predicates of known findings.
+pub fn pred(name: &str, c: &CsrCase) -> bool {
+    match name {
+        "subject_repeats_attribute_oid" => {
+            let e = c.st.dn.entries();
+            let mut oids: Vec<Vec<u64>> = e.iter().map(|x| x.0.oid()).collect();
+            let n = oids.len();
+            oids.sort();
+            oids.dedup();
+            oids.len() != n
+        }
+        _ => false,
+    }
+}
+
 fn judge(prop: &str, known: &[KnownEntry], c: &CsrCase, key: &rcgen::KeyPair, key_pub: &KeyPub) -> Outcome {
     let ev = eval_csr(&c.st, &c.attrs, key, key_pub);
     let mut out = outcome_for(prop, ev);
-    let (v, k) = split_known(known, std::mem::take(&mut out.findings), &|_p| false);
+    let (v, k) = split_known(known, std::mem::take(&mut out.findings), &|p| pred(p, c));
     out.findings = v;
     out.known = k;
     out
@@ -285,7 +300,9 @@ pub fn add_sections(rep: &mut Report, prop: &str, thorough: bool, conformant_onl
                     let mut out = judge(prop, &known, c, &kp, &kpub);
                     if parser_supported(c) && !refmodel::spec::csr_unsupported(&c.st) {
                         let rt = round_trip(c, &kp, &kpub);
-                        out.findings.extend(rt.findings.into_iter().filter(|f| relevant(prop, f)));
+                        let (v, k) = split_known(&known, rt.findings.into_iter().filter(|f| relevant(prop, f)).collect(), &|p| pred(p, c));
+                        out.findings.extend(v);
+                        out.known.extend(k);
                         out.transitions += rt.transitions;
                     }
                     out
